@@ -714,6 +714,9 @@ impl Tcb {
         // SND.UNA only ever advances, and only to an acknowledgment inside (SND.UNA, SND.NXT]
         final(self).snd.una == old(self).snd.una
             || (final(self).snd.una == seg.ack && !circ_lt(old(self).snd.nxt, seg.ack) && seg.ack != old(self).snd.una),   //# una_advances_within_sent_data [C17,C01]
+        // ... and it advances exactly for an acknowledgment inside (SND.UNA, SND.NXT] in the circular order (C12: no absolute comparison)
+        (final(self).snd.una == seg.ack && seg.ack != old(self).snd.una)
+            == (!circ_leq(seg.ack, old(self).snd.una) && seg.ack != old(self).snd.una && !circ_lt(old(self).snd.nxt, seg.ack)),   //# una_advances_exactly_for_acks_of_outstanding_data [C12,C17]
         // the send window is only ever set to the window the peer advertised in this segment
         final(self).snd.wnd == old(self).snd.wnd || final(self).snd.wnd == seg.wnd,   //# window_from_peer_only [C17]
         // RFC 9293 3.10.7.4: a valid ACK that is not older (in the circular order) than the segment used for the last
